@@ -82,6 +82,7 @@ def groups(tier, seed):
     for cls in ('is_archive', 'is_audio', 'is_book', 'is_doc', 'is_font', 'is_image', 'is_source', 'is_video'):
         yield {'kind': 'extclass', 'cls': cls, 'override': False}
         yield {'kind': 'extclass', 'cls': cls, 'override': True}
+        yield {'kind': 'extclass', 'cls': cls, 'override': 'flag'}      # the override file is named by --config (its path has capitals and a blank)
     for k in content_lengths(tier):
         yield {'kind': 'content', 'length': k}
     # a value must not depend on the WHERE clause that let the row through, nor on the rows seen before it
@@ -401,11 +402,27 @@ def eval_group(env, group, tier):
                 tree[n] = F(0)
             tree['dir' + default_list[0]] = D({})
             core.materialise(root, tree)
-            try:
-                env.set_config(newconf)
-                rows = query_rows(env, root, [cls])
-            finally:
-                env.set_config(conf0)
+            if group['override'] == 'flag':
+                cdir = os.path.join(root, 'Conf Dir')
+                os.mkdir(cdir)
+                cpath = os.path.join(cdir, 'Over.TOML')
+                with open(cpath, 'w') as f_:
+                    f_.write(newconf)
+                o = env.run(['--config', cpath, 'name, %s from . where is_file = true and name != Over.TOML into list' % cls], cwd=root)
+                rws = o.rows(2)
+                if o.rc != 0 or o.err or rws is None:
+                    outs.append({'case': {'group': {k_: v_ for k_, v_ in group.items() if k_ != 'only'}, 'row': '--config'}, 'status': 'viol',
+                                 'cls': 'extclass-config-flag:status', 'detail': dict(o.brief(), config=cpath), 'nt': True, 'sig': ('cfgflag',),
+                                 'layer': 'extclass-override'})
+                    return outs
+                rows = {r_[0]: tuple(r_[1:]) for r_ in rws}
+                tree.pop('dir' + default_list[0], None)
+            else:
+                try:
+                    env.set_config(newconf)
+                    rows = query_rows(env, root, [cls])
+                finally:
+                    env.set_config(conf0)
             exp = {n: (b(any(n.lower().endswith(x) for x in active)),) for n in tree}
             row_outcomes(group, rows, exp, [cls], outs, 'extclass-' + ('override' if group['override'] else 'default'))
         elif kind == 'needle-align':
